@@ -319,7 +319,8 @@ example : exprHintSafe wideDated = true := by decide
 example : DayLevelOK demoCtx wideDated := envOK_of_parserWF demoCtx (by decide) wideDated (by decide) (by decide)
 
 /-- outside the scope (nothing is proved, nothing is known to fail): a day offset beyond ±92 000 000 days on a
-yearless start; beyond ±300 000 days next to Easter -/
+yearless start (and below +99 500 000, from where on nothing ever starts: in scope again); beyond ±300 000 days
+next to Easter -/
 example : exprHintSafe [⟨⟨[], [.date (.fixed none 1 1) ⟨.none, 92000001⟩ (.fixed none 1 10) ⟨.none, 0⟩], [], []⟩,
     [TimeSpan.fullDay], .open, .normal, []⟩] = false := by decide
 example : exprHintSafe [⟨⟨[], [.date (.easter none) ⟨.none, 300001⟩ (.fixed none 12 31) ⟨.none, 0⟩], [], []⟩,
